@@ -11,17 +11,20 @@ partial def exprVars (σ : Store) : TExpr → List Nat → List Nat
   | .src _ _ t, acc => collectVars σ t acc
   | .op _ t, acc => collectVars σ t acc
   | .app f x t, acc => collectVars σ t (exprVars σ x (exprVars σ f acc))
+  | .shared _ e, acc => exprVars σ e acc
 
 partial def exprTypes : TExpr → List Term
   | .src _ _ t => [t]
   | .op _ t => [t]
   | .app f x t => exprTypes f ++ exprTypes x ++ [t]
+  | .shared _ e => exprTypes e
 
 partial def renderExprWith (σ : Store) (names : List Nat) : TExpr → String
   | .src i none t => s!"(src {i} {renderTerm σ names t})"
   | .src _ (some l) t => s!"(const {l} {renderTerm σ names t})"
   | .op n t => s!"(op {n} {renderTerm σ names t})"
   | .app f x t => s!"(app {renderExprWith σ names f} {renderExprWith σ names x} {renderTerm σ names t})"
+  | .shared _ e => renderExprWith σ names e
 
 def renderExpr (σ : Store) (e : TExpr) : String :=
   let names := exprVars σ e []
